@@ -365,6 +365,9 @@ class CallMixin:
         if con.axioms:
             for a in con.axioms(cx):
                 st.assume(a)
+        if con.heap_axioms:
+            for a in con.heap_axioms(self, st):
+                st.assume(a)
         for label, p in _labelled(pre):
             self.oblige(st, '%s/call:%s/requires:%s' % (st.ghost.get('$top', '?'), con.qual, label), p, 'call-pre')
             st.assume(p)        # later obligations on this path may rely on it (it is proved separately)
@@ -407,9 +410,11 @@ class CallMixin:
                 pass
             if not self.feasible(s):
                 continue
-            s.ghost['$calls'] = s.ghost.get('$calls', []) + [
-                {'qual': con.qual, 'args': args, 'vals': vals, 'outcome': kind,
-                 'result': r if kind == 'ret' else None, 'exc': e, 'st': cx.st0}]
+            tr = self.cur.tracks if self.cur is not None else None
+            if tr is None or con.qual in tr:
+                s.ghost['$calls'] = s.ghost.get('$calls', []) + [
+                    {'qual': con.qual, 'args': args, 'vals': vals, 'outcome': kind,
+                     'result': r if kind == 'ret' else None, 'exc': e, 'st': cx.st0}]
             out.append((s, 'ok', r) if kind == 'ret' else (s, 'exc', o.exc))
         return out
 
